@@ -119,6 +119,11 @@ def main():
     run_cases(chk, "checks.c18", "validity_case", rnames, {"tier": a.tier}, a.jobs)
     run_cases(chk, "vlib.kvk", "compare", rnames, dict(spec, tier="quick"), a.jobs)
     chk.extra["random_forms"] = len(rnames)
+    # modules with several objects (forms + expressions) compiled in one call / one process; expression kernels
+    from vlib import multimod
+    mnames = multimod.select(quick=q) if not a.only else []
+    run_cases(chk, "vlib.multimod", "module_case", mnames, {"tier": a.tier}, a.jobs)
+    chk.extra["multi_object_modules"] = len(mnames)
     chk.encoded("generated *_numba.py kernels (python ast front-end) and C kernels of the same form", "numba/formatter.py spelling of operators and math functions (through the emitted text)", "codegeneration.common.tensor_sizes (declared carray sizes)")
     chk.bounds = {"programs": len(names), "inputs": "all symbolic", "literals": "C text 16 significant digits, numba text shortest repr: compared at 1e-9 relative"}
     chk.assumptions = ["exact arithmetic", "numba.carray modelled as a view of the caller's buffer", "numpy semantics of np.* calls as implemented in the executor"]
